@@ -9,7 +9,7 @@ ops (JSON-able lists)
   ["subtract", "scalar"|"vector"]
   ["json", [dropped optional keys]]          to_dict -> json.dumps -> json.loads -> drop keys -> from_dict
   ["from_dict_twice", [dropped keys]]        two imports of the *same* dict object
-  ["duplicate"] / ["average"]
+  ["duplicate"] / ["average"] (with a shifted copy) / ["average1"] (a list of exactly one)
 """
 from __future__ import annotations
 
@@ -110,6 +110,7 @@ class Model:
         ops.append(["from_dict_twice", ["version"]])
         ops.append(["duplicate"])
         ops.append(["average"])
+        ops.append(["average1"])   # the boundary count: a list holding exactly this one data set
         return ops
 
     # -------------------------------------------------------------------------------------------
@@ -249,6 +250,12 @@ class Model:
                 for x in self.check_state(other, ref_other, "average(second operand)"):
                     x["key"] = "alias|operand-changed|" + x["key"]
                     vs.append(x)
+            elif kind == "average1":
+                retained = (impl, copy.deepcopy(ref), "average")
+                impl = DataSet.average([impl], label="lbl")
+                for t in ref.pts:
+                    t[2] = False
+                ref.path = ""
             else:
                 raise ValueError(f"unknown op {op}")
         except Exception as e:
